@@ -172,6 +172,21 @@ Lemma quote_close_br strip sepc d q S ty i m A acc sa sc :
   = Ok (BrD d S ty i m A (snoc acc (qchar q)) false false).
 Proof. destruct d, q, sa, sc; reflexivity. Qed.
 
+(* the other quote character inside a quote pair inside [ ]: a nested pair
+   (the text so far is not empty -- it starts with the demarcating quote -- so
+   the mark does not count as the one that opens the term) *)
+Notation BN open d q S ty i m A acc := (GstD d false S ty (nstk q open) i m A None 0 CNone acc false false).
+
+Lemma nest_open strip sepc d q S ty i m A a r :
+  step strip sepc (BN false d q S ty i m A (String a r)) (qchar (other_quote q))
+  = Ok (BN true d q S ty i m A (snoc (String a r) (qchar (other_quote q)))).
+Proof. destruct d, q, m; reflexivity. Qed.
+
+Lemma nest_close strip sepc d q S ty i m A acc :
+  step strip sepc (BN true d q S ty i m A acc) (qchar (other_quote q))
+  = Ok (BN false d q S ty i m A (snoc acc (qchar (other_quote q)))).
+Proof. destruct d, q; reflexivity. Qed.
+
 (* keyword searches *)
 Lemma kw_open strip sepc S i k sa sc :
   run strip sepc (Br S (Some TIndex) i None "" "" sa sc) (kw_text k ++ "(")
